@@ -34,6 +34,8 @@ def run(prog, rep):
     wiring(prog, rep)
     given(prog, rep)
     rng(prog, rep)
+    montecarlo(prog, rep)
+    rep.expect_min("C16.mc", 6)
     rep.expect_min("C16.closed", 8)
     rep.expect_min("C16.wiring", 7)
     rep.expect_min("C16.given", 2)
@@ -351,3 +353,86 @@ def rng(prog, rep):
                 okg = True
     rep.check(okg, "C16.rng", f"{MM}.conditional_sample:generator", cs.where(), "rng = np.random.default_rng(random_state)",
               "the rejection sampler must draw from np.random.default_rng(random_state) only")
+
+
+def montecarlo(prog, rep):
+    """Empirical / Monte-Carlo conditional cdf, quantile and the exact hierarchical counterparts: index agreement."""
+    # TransformedModel.empirical_cdf
+    q = f"{TM}.empirical_cdf"
+    fn = prog.func(q)
+    rep.analysed(fn)
+    b = builder(prog, fn, inline=False)
+    rets = [s for s in cfg_of(fn).all_stmts() if isinstance(s, ast.Return)]
+    t = b.term(rets[-1].value, rets[-1])
+    ok = False
+    why = f"empirical cdf must be the fraction of sample rows that are <= the point in EVERY coordinate; found {show(t)[:200]}"
+    if t[0] == "bin" and t[1] == "/":
+        num, den = t[2], t[3]
+        smp = None
+        if den[0] == "call" and den[1] == G("len") and den[2]:
+            smp = den[2][0]
+        x2 = ("call", G("numpy.atleast_2d"), (("call", G("numpy.asarray_chkfinite"), (P("x"),), ()),), ())
+        ev = ("sub", x2, ("tuple", (("slice", NONE, NONE, NONE), G("numpy.newaxis"), ("slice", NONE, NONE, NONE))))
+        want = ("call", ("attr", ("call", ("attr", ("cmp", "<=", smp, ev), "all"), (), (("axis", ("const", -1)),)), "sum"), (), (("axis", ("const", -1)),))
+        ok = smp is not None and num == want and set(alts(smp)) == {P("sample"), ("attr", SELF, "sample")}
+    rep.check(ok, "C16.mc", f"{q}:fraction", fn.where(rets[-1]), "sum over samples of all_d(sample_d <= x_d) / len(sample), sample = supplied or self.sample", why)
+    sp = prog.func(f"{TM}.sample")
+    bs_ = builder(prog, sp, inline=False)
+    oks = False
+    for st in cfg_of(sp).all_stmts():
+        if isinstance(st, ast.Assign) and isinstance(st.targets[0], ast.Attribute) and st.targets[0].attr == "_sample":
+            v = bs_.term(st.value, st)
+            oks = v[0] == "call" and v[1] == ("attr", SELF, "draw_sample") and ("isnone", ("attr", SELF, "_sample")) in path_conditions(prog, sp, bs_).of(st)
+    rep.check(oks, "C16.mc", f"{TM}.sample:own-sample", sp.where(), "the cached sample is drawn from the model itself", "the empirical cdf must be computed from samples of this model (self.draw_sample)")
+    # Monte-Carlo conditional cdf / icdf
+    for name, red in (("conditional_cdf", "cdf"), ("conditional_icdf", "icdf")):
+        q = f"{MM}.{name}"
+        fn = prog.func(q)
+        rep.analysed(fn)
+        b = builder(prog, fn, inline=False)
+        cfg = cfg_of(fn)
+        first = [p_ for p_ in fn.positional_params if p_ != "self"][0]
+        ok = False
+        why = "per-point Monte-Carlo estimate not recognised"
+        for st in cfg.all_stmts():
+            if isinstance(st, ast.Assign) and isinstance(st.targets[0], ast.Subscript) and cfg.enclosing_loops(st) and ("handler", G(f"{JM}.CouldNotSampleError")) not in path_conditions(prog, fn, b).of(st):
+                lp = cfg.enclosing_loops(st)[-1]
+                i = ("idx", f"{lp.lineno}:{lp.col_offset}", "enumerate")
+                z = ("sub", ("call", G("zip"), (P(first), P("given")), ()), i)
+                val, giv = ("item", z, 0), ("item", z, 1)
+                idx = b.term(st.targets[0].slice, st)
+                base = b.term(st.targets[0].value, st)
+                v = b.term(st.value, st)
+                smp = [s for s in walk(v) if s[0] == "call" and s[1] == ("attr", SELF, "conditional_sample")]
+                okc = len(smp) == 1 and smp[0][2][1:3] == (P("dim"), giv) and dict(smp[0][3]).get("random_state") == P("random_state")
+                if red == "cdf":
+                    n_ = smp[0][2][0] if smp else None
+                    okv = okc and v == ("bin", "/", ("call", ("attr", ("cmp", "<=", smp[0], val), "sum"), (), ()), n_)
+                else:
+                    okv = okc and v == ("call", G("numpy.quantile"), (smp[0], val), ())
+                ok = okv and idx == i and base == ("call", G("numpy.empty_like"), (P(first),), ())
+                why = (f"point i must be estimated from conditional_sample(n, dim, given_i, random_state=random_state) of the SAME i and stored at index i "
+                       f"({'fraction of the sample <= x_i' if red == 'cdf' else 'np.quantile(sample, p_i)'}); found [{show(idx)[:30]}] = {show(v)[:160]}")
+        rep.check(ok, "C16.mc", f"{q}:per-point", fn.where(), f"{'(sample <= x_i).sum()/n' if red == 'cdf' else 'quantile(sample, p_i)'} with sample conditioned on given_i, stored at i", why)
+    # exact hierarchical conditional cdf / icdf
+    dists, cond = ("attr", SELF, "distributions"), ("attr", SELF, "conditional_on")
+    for name, meth in (("conditional_cdf", "cdf"), ("conditional_icdf", "icdf")):
+        q = f"{JM}.GlobalHierarchicalModel.{name}"
+        fn = prog.func(q)
+        rep.analysed(fn)
+        b = builder(prog, fn, inline=False)
+        rets = [s for s in cfg_of(fn).all_stmts() if isinstance(s, ast.Return)]
+        t = b.term(rets[-1].value, rets[-1])
+        first = [p_ for p_ in fn.positional_params if p_ != "self"][0]
+        d = ("sub", dists, P("dim"))
+        want = {("call", ("attr", d, meth), (P(first),), ()),
+                ("call", ("attr", d, meth), (P(first),), (("given", ("col", P("given"), ("sub", cond, P("dim")))),))}
+        ok = set(alts(t)) == want
+        if ok and isinstance(rets[-1].value, ast.Name):
+            pcs_ = path_conditions(prog, fn, b)
+            for dd in b.rd.reaching(rets[-1].value.id, rets[-1]):
+                tt = b.def_term(dd)
+                lit = ("isnone", ("sub", cond, P("dim")))
+                ok = ok and ((lit in pcs_.of(dd.stmt)) if not tt[3] else (("not", lit) in pcs_.of(dd.stmt)))
+        rep.check(ok, "C16.mc", f"{q}:exact", fn.where(rets[-1]), f"distributions[dim].{meth}({first}[, given=given[:, conditional_on[dim]]])",
+                  f"the exact conditional {meth} must be distributions[dim].{meth} of the argument given column conditional_on[dim] of given (same dim), on the right None-branch; found {show(t)[:200]}")
